@@ -6,16 +6,18 @@ Model of `graphicsstate.GraphicsState` (graphicsstate/state.go, after the two
 (text/extractor.go) and `graphicsstate.(*GraphicsExtractor).processOperation`
 (graphicsstate/extractor.go) for the operators
 
-  q Q cm BT ET Tf Tm Td TD T* TL Tc Tw Tz Tj ' "   Do (Form XObject)   m/l/S (one line)
+  q Q cm BT ET Tf Tm Td TD T* TL Tc Tw Tz Ts Tj TJ ' "   Do (Form XObject)   m/l/S (one line)
 
 Core Lean only, generic in the number type `α` (a commutative ring with
 decidable `=` and `<`).
 
-Not modelled: colours, line width, rendering mode, text rise (no operator of
-the set changes them; rise stays 0), font names, and the glyph advance after a
-show.  The advance is a *parameter* (`Adv`): `showText` adds `adv text sid` to
-`Tm.e`, and the ghost flag `dirty` records that `Tm.e` now contains such an
-un-modelled amount.  Every operator that assigns the text matrix clears it.
+Not modelled: colours, line width, rendering mode, font names.  The amount by which
+a shown string or a `TJ` number displaces the text matrix is a *parameter* here
+(`Adv`; `Model/TextAdv.lean` gives the function the code computes, over a field):
+`showText` / the number case of `showTextArray` call `AdvanceText(adv …)`, which
+sets `Tm := T(tx,0) × Tm` (branch agent-C08 after 6121d81), and the ghost flag `dirty`
+records that `Tm` now contains such an amount.  Every operator that assigns the
+text matrix clears it.
 -/
 namespace Tabula.GState
 open Tabula
@@ -29,9 +31,11 @@ structure TextState (α : Type) where
   wordSpacing : α
   hScaling : α
   leading : α
+  /-- `Rise` (Ts) -/
+  rise : α
   tm : Matrix α
   tlm : Matrix α
-  /-- ghost: `tm.e` contains glyph advances (not a Go field) -/
+  /-- ghost: `tm` contains glyph advances or `TJ` adjustments (not a Go field) -/
   dirty : Bool
 deriving DecidableEq, Repr
 
@@ -52,7 +56,8 @@ deriving DecidableEq, Repr
 
 /-- one fragment emitted by `showText`: device-space origin, and the three factors of
 the reported font size: `FontSize² = fs² · tmScale2 · ctmScale2`. `clean` = the origin
-does not depend on a glyph advance (first show after a positioning step). -/
+is one the property determines: it does not depend on a glyph advance or `TJ` adjustment
+(first show after a positioning step) and the text rise is 0. -/
 structure Show (α : Type) where
   x : α
   y : α
@@ -62,9 +67,18 @@ structure Show (α : Type) where
   clean : Bool
 deriving DecidableEq, Repr
 
-/-- the glyph advance added to `Tm.e` by `ShowTextWithWidth`: depends on the font's
-widths, the string (identified by `sid`) and the text state; a black box here -/
-abbrev Adv (α : Type) := TextState α → Nat → α
+/-- an element of a `TJ` array that `showTextArray` looks at: a string (identified by a
+number) or a number; elements of any other type are skipped by its `switch` -/
+inductive TJItem (α : Type) where
+  | str (sid : Nat)
+  | num (v : α)
+deriving DecidableEq, Repr
+
+/-- the displacement `tx` handed to `AdvanceText`: for a string the one
+`ShowTextWithWidth` computes (font widths, Tc, Tw, Tz), for a `TJ` number
+`-v · fontSize · hScale / 1000`; depends on the text state; a black box here, the
+code's function in `Model/TextAdv.lean` -/
+abbrev Adv (α : Type) := TextState α → TJItem α → α
 
 /-- the operators; `form m body` is `Do` of a name that resolves to a Form XObject
 with `/Matrix m` (or none) and content stream `body`; `line` is `x0 y0 m x1 y1 l S`
@@ -82,7 +96,9 @@ inductive Op (α : Type) where
   | Tc (c : α)
   | Tw (w : α)
   | Tz (z : α)
+  | Ts (r : α)
   | Tj (sid : Nat)
+  | TJ (items : List (TJItem α))
   | quote (sid : Nat)
   | dquote (aw ac : α) (sid : Nat)
   | form (m : Option (Matrix α)) (body : List (Op α))
@@ -96,7 +112,7 @@ variable [Lean.Grind.CommRing α]
 
 /-- `NewGraphicsState()` inside `text.NewExtractor()` -/
 def initText : TextState α :=
-  { fontSize := 12, charSpacing := 0, wordSpacing := 0, hScaling := 100, leading := 0,
+  { fontSize := 12, charSpacing := 0, wordSpacing := 0, hScaling := 100, leading := 0, rise := 0,
     tm := Matrix.identity, tlm := Matrix.identity, dirty := false }
 
 def init : State α := { cur := { ctm := Matrix.identity, text := initText }, stack := [], xdepth := 0 }
@@ -147,10 +163,18 @@ def setFont (s : State α) (size : α) : State α := s.mapText fun t => { t with
 def setCharSpacing (s : State α) (c : α) : State α := s.mapText fun t => { t with charSpacing := c }
 def setWordSpacing (s : State α) (w : α) : State α := s.mapText fun t => { t with wordSpacing := w }
 def setHorizontalScaling (s : State α) (z : α) : State α := s.mapText fun t => { t with hScaling := z }
+/-- `SetTextRise` (Ts) -/
+def setTextRise (s : State α) (r : α) : State α := s.mapText fun t => { t with rise := r }
 
-/-- `GetTextPosition` (text rise is 0 for the operator set) -/
+/-- `AdvanceText(tx)`: `Tm[4] += tx·Tm[0]; Tm[5] += tx·Tm[1]`, i.e. `Tm := T(tx,0) × Tm`
+(`Lemmas/GState.lean: advanceText_tm`); the line matrix is not touched -/
+def advanceText (s : State α) (tx : α) : State α :=
+  s.mapText fun t =>
+    { t with tm := { t.tm with e := t.tm.e + tx * t.tm.a, f := t.tm.f + tx * t.tm.b }, dirty := true }
+
+/-- `GetTextPosition`: `x = Tm.e`, `y = Tm.f + Rise`, through the CTM -/
 def getTextPosition (s : State α) : α × α :=
-  s.cur.ctm.transformPoint (s.cur.text.tm.e, s.cur.text.tm.f)
+  s.cur.ctm.transformPoint (s.cur.text.tm.e, s.cur.text.tm.f + s.cur.text.rise)
 
 end State
 end
@@ -169,14 +193,24 @@ def tmScale2 (m : Matrix α) : α :=
 def ctmScale2 (m : Matrix α) : α :=
   if m.vScale2 = 0 then 1 else m.vScale2
 
-/-- `text.(*Extractor).showText`: emit the fragment, then `ShowTextWithWidth` adds the
-advance to `Tm.e` -/
+/-- `text.(*Extractor).showText`: emit the fragment, then `ShowTextWithWidth` moves the
+text matrix by the advance (`AdvanceText`) -/
 def showText (adv : Adv α) (sid : Nat) (s : State α) : State α × Show α :=
   let p := s.getTextPosition
   let t := s.cur.text
   let sh : Show α := { x := p.1, y := p.2, fs := t.fontSize, tmScale2 := tmScale2 t.tm,
-                       ctmScale2 := ctmScale2 s.cur.ctm, clean := !t.dirty }
-  (s.mapText fun t => { t with tm := { t.tm with e := t.tm.e + adv t sid }, dirty := true }, sh)
+                       ctmScale2 := ctmScale2 s.cur.ctm, clean := !t.dirty && decide (t.rise = 0) }
+  (s.advanceText (adv t (.str sid)), sh)
+
+/-- `text.(*Extractor).showTextArray` (TJ): a string is shown, a number moves the text
+matrix (only the text matrix) by `AdvanceText(-v · fontSize · hScale / 1000)` -/
+def showTextArray (adv : Adv α) : List (TJItem α) → State α → State α × List (Show α)
+  | [], s => (s, [])
+  | .str sid :: rest, s =>
+    let r := showText adv sid s
+    let r2 := showTextArray adv rest r.1
+    (r2.1, r.2 :: r2.2)
+  | .num v :: rest, s => showTextArray adv rest (s.advanceText (adv s.cur.text (.num v)))
 
 /-- every operator except `Do`: new state, emitted fragments, error flag
 (`processOperation` returns an error only for `Q` on an empty stack; the state is then
@@ -198,6 +232,8 @@ def stepBasic (adv : Adv α) : Op α → State α → State α × List (Show α)
   | .Tc c, s => (s.setCharSpacing c, [], false)
   | .Tw w, s => (s.setWordSpacing w, [], false)
   | .Tz z, s => (s.setHorizontalScaling z, [], false)
+  | .Ts r, s => (s.setTextRise r, [], false)
+  | .TJ items, s => let r := showTextArray adv items s; (r.1, r.2, false)
   | .Tj sid, s => let r := showText adv sid s; (r.1, [r.2], false)
   | .quote sid, s => let r := showText adv sid s.nextLine; (r.1, [r.2], false)
   | .dquote aw ac sid, s =>
